@@ -858,7 +858,7 @@ func (w *Workload) wordSpecs(method string) []SpecInfo {
 	return out
 }
 
-// opTieReport: reporters report one of two values on a weighted-mode query, so that with equal powers
+// opTieReport: reporters report one of two (or, per query, three) values on a weighted-mode query, so that with equal powers
 // exact ties occur (C01 tie rule, C06 mode definition). Tips the query when no round is open.
 func (w *Workload) opTieReport(h int64) (*Intent, bool) {
 	specs := w.wordSpecs("weighted-mode")
@@ -875,6 +875,17 @@ func (w *Workload) opTieReport(h int64) (*Intent, bool) {
 		}
 	}
 	if !open {
+		// the round is preferably opened in a block from which its window ends together with the window of the
+		// current cycle-list round: several rounds, of different aggregation methods, then close in one EndBlock
+		aligned := false
+		for _, qi := range w.v.Queries() {
+			if qi.Meta.CycleList && qi.Meta.Expiration == uint64(h)+sp.Spec.ReportBlockWindow {
+				aligned = true
+			}
+		}
+		if !aligned && w.r.Chance(0.5) {
+			return nil, false
+		}
 		a, ok := w.freeActor(false)
 		if !ok {
 			return nil, false
@@ -883,9 +894,45 @@ func (w *Workload) opTieReport(h int64) (*Intent, bool) {
 	}
 	reps := w.v.Reporters()
 	sort.Slice(reps, func(i, j int) bool { return reps[i].Actor < reps[j].Actor })
+	if w.r.Chance(0.35) {
+		// a burst: three reporters report three different values in one block, the one with the largest stake the
+		// smallest value. Unless it holds half of the three stakes, the heaviest value (mode) is then not the middle
+		// one (median): a mix-up of the aggregation methods shows on such a round.
+		var us []ReporterInfo
+		for _, rp := range reps {
+			if w.usable(rp.Actor) {
+				us = append(us, rp)
+			}
+		}
+		if len(us) >= 3 {
+			stake := func(rp ReporterInfo) int64 { return w.v.BondedStakeOf(rp.Addr).QuoRaw(1000).Int64() }
+			sort.SliceStable(us, func(i, j int) bool { return stake(us[i]) > stake(us[j]) })
+			us = us[:3]
+			for k := 1; k < 3; k++ {
+				w.extra = append(w.extra, w.newIntent(us[k].Actor, MsgSpec{K: "submit_value", Q: q, V: fmt.Sprintf("%064x", 1+k)}))
+			}
+			// and somebody reports the open cycle-list round, so that it produces an aggregate too
+			for _, qi := range w.v.Queries() {
+				if qi.Meta.CycleList && qi.Meta.Expiration >= uint64(h) {
+					for _, rp := range reps {
+						if w.usable(rp.Actor) && rp.Actor != us[0].Actor && rp.Actor != us[1].Actor && rp.Actor != us[2].Actor {
+							cq := "raw:" + fmt.Sprintf("%x", qi.Meta.QueryData)
+							w.extra = append(w.extra, w.newIntent(rp.Actor, MsgSpec{K: "submit_value", Q: cq, V: w.valueFor(w.canonName(cq))}))
+							break
+						}
+					}
+					break
+				}
+			}
+			return w.newIntent(us[0].Actor, MsgSpec{K: "submit_value", Q: q, V: fmt.Sprintf("%064x", 1)}), true
+		}
+	}
 	for _, i := range w.r.Perm(len(reps)) {
 		if w.usable(reps[i].Actor) {
-			return w.newIntent(reps[i].Actor, MsgSpec{K: "submit_value", Q: q, V: fmt.Sprintf("%064x", 1+i%2)}), true
+			// two values (exact ties with equal powers) or three (the heaviest value is then often not the middle one:
+			// weighted mode and weighted median of the same reports differ)
+			nv := 2 + int(qid[0])%2
+			return w.newIntent(reps[i].Actor, MsgSpec{K: "submit_value", Q: q, V: fmt.Sprintf("%064x", 1+i%nv)}), true
 		}
 	}
 	return nil, false
